@@ -72,6 +72,7 @@ Proof.
                   (background_revalidate (with_conditional_headers q sh) e k f cc)).
   { intros; unfold background_revalidate. apply Hrt; [apply Hc|].
     intros [|r] a b; [constructor|]. constructor; intros own; destruct own; [|constructor].
+    destruct (_ && _); [constructor|].
     unfold get_refs_clean; constructor; intros ans.
     apply OriginReqs_bind; [apply hvr_reqs|intros; constructor]. }
   assert (Hhit : forall e k refs i, OriginReqs (validation_request_of q) (handle_cache_hit q e k refs i)).
